@@ -23,14 +23,15 @@ theorem close_never_stuck (p : Params) (b : Behaviour) (s : State) (hs : Reachab
   progress p b s (inv_reachable p b s hs) hr
 
 /-- **Close always returns** (2/2, no infinite run): every run from the call of
-Close has at most `5 + delay + g1 + g2 + killLatency` steps. Together with
+Close has at most `7 + delay + g1 + g2 + killLatency` steps (the two extra ones:
+the descendant's exit and the end of the standard-error copier). Together with
 `close_never_stuck`: every run can be extended, and only finitely often, so
 every maximal run ends with Close having returned. -/
 theorem close_terminates (p : Params) (b : Behaviour) (s : State) (as : List Action)
     (hr : run p b (init p b) as = some s) :
-    as.length ≤ 5 + p.delay + p.g1 + p.g2 + b.killLatency := by
-  have := run_length p b (init p b) s as (inv_init p b) hr
-  rw [measure_init] at this
+    as.length ≤ 7 + p.delay + p.g1 + p.g2 + b.killLatency := by
+  have h1 := run_length p b (init p b) s as (inv_init p b) hr
+  have h2 := measure_init p b
   omega
 
 /-- **The process has exited by the time Close returns.** -/
@@ -60,11 +61,15 @@ theorem return_characterisation (p : Params) (b : Behaviour) (s : State) (hs : R
   · intro dl hdl; rw [← hi.deadline] at hdl; exact hi.before_deadline dl hdl
 
 /-- **Earliest stage.** Once the agent has exited strictly before the current
-stage's deadline, Close cannot escalate: the only enabled step is the `select`'s
-`waitResults` branch, which returns in the current stage at the current time. -/
+stage's deadline, Close cannot escalate: time cannot pass and the timer cannot
+fire; the only step of the ladder that is enabled is the `select`'s
+`waitResults` branch, which returns in the current stage at the current time.
+(The descendant's exit and the copier's end may also happen; they change
+nothing the ladder looks at — `holder_steps_invisible`.) -/
 theorem no_escalation_after_exit (p : Params) (b : Behaviour) (s s' : State) (a : Action)
     (hs : Reachable p b s) (hw : s.waited = true) (hr : s.returned = none) (t : Nat)
-    (hd : s.deadline = some t) (hlt : s.now < t) (hstep : step p b s a = some s') :
+    (hd : s.deadline = some t) (hlt : s.now < t) (hl : isLadder a = true)
+    (hstep : step p b s a = some s') :
     a = .recv ∧ s'.returned = some (s.stage, s.now) := by
   have hal := (inv_reachable p b s hs).waited hw
   cases a with
@@ -79,6 +84,58 @@ theorem no_escalation_after_exit (p : Params) (b : Behaviour) (s s' : State) (a 
     simp only [step, hr, hd] at hstep
     simp at hstep
     omega
+  | helperExit => simp [isLadder] at hl
+  | copyEnd => simp [isLadder] at hl
+
+/-! ### Close does not depend on other holders of the agent's pipes -/
+
+/-- The exit of a descendant that still holds the standard-error pipe, and the
+end of the forwarding goroutine, change nothing Close looks at: time, stage,
+timer, the agent's fate, `waitResults`, the return. -/
+theorem holder_steps_invisible (p : Params) (b : Behaviour) (s s' : State) (a : Action)
+    (ha : isLadder a = false) (hs : step p b s a = some s') :
+    s'.now = s.now ∧ s'.stage = s.stage ∧ s'.deadline = s.deadline ∧ s'.exitAt = s.exitAt ∧
+    s'.alive = s.alive ∧ s'.waited = s.waited ∧ s'.returned = s.returned := by
+  apply aux_step_fields p b s s' a _ hs
+  cases a <;> simp [isLadder] at ha <;> simp
+
+/-- **Close never waits for another holder.** As long as Close has not returned,
+a step *of the ladder itself* is enabled — whatever the descendant does, even
+if it never lets go of the pipe, and whether or not the copier has finished. -/
+theorem close_never_waits_for_holders (p : Params) (b : Behaviour) (s : State) (hs : Reachable p b s)
+    (hr : s.returned = none) : ∃ a s', isLadder a = true ∧ step p b s a = some s' := by
+  have hi := inv_reachable p b s hs
+  have hic : Inv p b (core s) :=
+    ⟨hi.deadline, hi.plan, hi.started, hi.before_deadline, hi.before_exit, hi.exited, hi.waited,
+      hi.returned, hi.past_wait, hi.past_stdin, hi.past_term⟩
+  obtain ⟨a, s1, hstep⟩ := progress p b (core s) hic hr
+  have hl : isLadder a = true := by
+    cases a <;> simp [isLadder]
+    · simp [step, core] at hstep
+    · simp [step, core] at hstep
+  rw [step_core p b s a hl] at hstep
+  cases hst : step p b s a with
+  | none => rw [hst] at hstep; cases hstep
+  | some s2 => exact ⟨a, s2, hl, hst⟩
+
+/-- **Holders other than the agent do not matter.** Take any run of Close
+against an agent with a descendant that inherited its standard error (and a
+stream created with a receiver). Erase the descendant's and the copier's
+steps: what remains is a run of Close against the same agent *without* a
+descendant and without a receiver, and it ends in a state with the same time,
+stage, timer, agent fate and — in particular — the same return. So everything
+proved about the ladder (when and in which stage Close returns, that it
+returns, that the agent has exited) holds verbatim in the presence of other
+holders. -/
+theorem holders_do_not_matter (p : Params) (b : Behaviour) (s : State) (as : List Action)
+    (hr : run p b (init p b) as = some s) :
+    ∃ t, run { p with recv := false } { b with holder := false }
+        (init { p with recv := false } { b with holder := false }) (as.filter isLadder) = some t ∧
+      t.returned = s.returned ∧ t.stage = s.stage ∧ t.now = s.now ∧ t.alive = s.alive ∧
+      t.waited = s.waited := by
+  have h1 := run_core_filter p b (init p b) s as hr
+  rw [run_params p { p with recv := false } b { b with holder := false } _ _ rfl rfl rfl rfl rfl] at h1
+  exact ⟨core s, h1, rfl, rfl, rfl, rfl, rfl⟩
 
 /-! ### The four behaviour classes (each for arbitrary delays) -/
 
@@ -168,22 +225,33 @@ theorem outcomes_sound (p : Params) (b : Behaviour) (fuel : Nat) (s : State) (r 
 
 /-- An agent that reacts to nothing is killed: Close returns in stage `kill`. -/
 example :
-    ((run ⟨800, 1000, 1000⟩ ⟨none, none, none, 5⟩ (init ⟨800, 1000, 1000⟩ ⟨none, none, none, 5⟩)
+    ((run ⟨800, 1000, 1000, false⟩ ⟨none, none, none, 5, false⟩ (init ⟨800, 1000, 1000, false⟩ ⟨none, none, none, 5, false⟩)
       [.tick 800, .fire, .tick 1000, .fire, .tick 1000, .fire, .tick 5, .procExit, .recv]).map
       fun s => (s.returned, s.alive)) = some (some (.kill, 2805), false) := by
   decide
 
 /-- An agent that exits 100 ms after its input closes: stage `stdin`. -/
 example :
-    ((run ⟨800, 1000, 1000⟩ ⟨none, some 100, none, 5⟩ (init ⟨800, 1000, 1000⟩ ⟨none, some 100, none, 5⟩)
+    ((run ⟨800, 1000, 1000, false⟩ ⟨none, some 100, none, 5, false⟩ (init ⟨800, 1000, 1000, false⟩ ⟨none, some 100, none, 5, false⟩)
       [.tick 800, .fire, .tick 100, .procExit, .recv]).map
       fun s => s.returned) = some (some (.stdin, 900)) := by
   decide
 
 /-- A tie (exit exactly at the termination delay): both stages are possible. -/
 example :
-    ((outcomes ⟨800, 1000, 1000⟩ ⟨some 800, none, none, 5⟩ 32 (init ⟨800, 1000, 1000⟩ ⟨some 800, none, none, 5⟩)).map
+    ((outcomes ⟨800, 1000, 1000, false⟩ ⟨some 800, none, none, 5, false⟩ 32 (init ⟨800, 1000, 1000, false⟩ ⟨some 800, none, none, 5, false⟩)).map
       fun r => r.1) = [.wait, .stdin] := by
+  decide
+
+/-- With a receiver and a descendant that never lets go of standard error
+(`helperExit` does not occur in this run): Close still returns, in the same
+stage at the same time, the agent has been waited for, and the descendant is
+still holding the pipe when it does. -/
+example :
+    ((run ⟨0, 1000, 1000, true⟩ ⟨none, some 100, none, 5, true⟩
+        (init ⟨0, 1000, 1000, true⟩ ⟨none, some 100, none, 5, true⟩)
+      [.fire, .tick 100, .procExit, .copyEnd, .recv]).map
+      fun s => (s.returned, s.alive, s.helper, s.copyDone)) = some (some (.stdin, 100), false, true, true) := by
   decide
 
 end Mutagen.Properties.C35
